@@ -1,0 +1,25 @@
+//go:build verif
+
+// Contracts for the deductive verification in /verif (comment-only).
+package types
+
+// ---- C08: payload <-> engine data conversion must not mutate the (shared) payload --------------------------
+// engine.ExecutableData is a foreign struct and opaque to the verifier, so the field-by-field copy itself is
+// not checked here; what is checked is the frame: the argument must come back unchanged.
+//@ func PayloadToExecutableData
+//@ property C08 C19
+//@ requires data != nil
+//@ ensures result != nil
+//@ modifies nothing
+//@ nopanic
+
+// basefee: the only caller passes what the engine client decoded from JSON; hexutil.Big rejects numbers of more
+// than 256 bits, and math.NewIntFromBigInt panics only above 256 bits (without this bound: nopanic fails, see NOTES).
+//@ func ExecutableDataToPayload
+//@ property C08 C19
+//@ requires data != nil
+//@ requires basefee: data.BaseFeePerGas == nil || (*data.BaseFeePerGas < 115792089237316195423570985008687907853269984665640564039457584007913129639936 && *data.BaseFeePerGas > -115792089237316195423570985008687907853269984665640564039457584007913129639936)
+//@ ensures result != nil
+//@ ensures fields: result.BeaconRoot == beaconRoot && result.Requests == execRequests
+//@ modifies nothing
+//@ nopanic
